@@ -80,11 +80,12 @@ func c12RespondOnce(c *Ctx) {
 	fn := w.Func(yubiPkg, "ServeAgent")
 	c.Saw(fn)
 	f := w.Facts(fn)
+	yrd, ywr := framingFns(w, yubiPkg)
 	// loop head: the block holding the framed read of the served connection
 	var read *ssa.Call
 	for _, call := range callsIn(fn) {
 		if cv, ok := call.(*ssa.Call); ok {
-			if callee := cv.Call.StaticCallee(); callee != nil && callee.Name() == "read" && w.InRepo(callee) && w.Expr(cv.Call.Args[0]) == "p1" {
+			if callee := cv.Call.StaticCallee(); callee != nil && callee == yrd && w.Expr(cv.Call.Args[0]) == "p1" {
 				read = cv
 			}
 		}
@@ -100,12 +101,12 @@ func c12RespondOnce(c *Ctx) {
 			return false
 		}
 		if callee := cv.Call.StaticCallee(); callee != nil {
-			if callee.Name() == "write" && w.InRepo(callee) && w.Expr(cv.Call.Args[0]) == "p1" {
+			if callee == ywr && w.Expr(cv.Call.Args[0]) == "p1" {
 				return true
 			}
 			if fnName(callee) == "golang.org/x/crypto/ssh/agent.ServeAgent" {
 				// the delegation writes one reply per request through the forwarder, which must wrap the served connection
-				return strings.Contains(w.Expr(cv.Call.Args[1]), "newForwarder>(") && strings.HasSuffix(w.Expr(cv.Call.Args[1]), ",p1)")
+				return isForwarderOver(w, cv.Call.Args[1], "p1")
 			}
 		}
 		return false
